@@ -76,9 +76,22 @@ def impl_url(s):
         return leak(e)
     if type(r.params) is not dict or len(r) != 6:
         return "err Leak:shape"
-    return "ok " + " ".join(
+    out = "ok " + " ".join(
         [hx(r.protocol), opt(r.username), opt(r.password), hx(r.resource), alist(r.params.items()), opt(r.path)]
     )
+    # parsing is a function of the text: whatever the receiver does with one result (openers pop and set
+    # their options) must not show in the next parse of the same URL
+    try:
+        r.params.clear()
+        r.params["zz-caller-owned"] = "1"
+        r2 = parse_fs_url(s)
+        out2 = "ok " + " ".join(
+            [hx(r2.protocol), opt(r2.username), opt(r2.password), hx(r2.resource), alist(r2.params.items()), opt(r2.path)])
+    except Exception as e:  # noqa
+        out2 = leak(e)
+    if out2 != out:
+        return "err Leak:stateful-parse(second parse of the same text gave %s)" % out2[:80].replace(" ", "_")
+    return out
 
 
 KNOWN_PROTOCOLS = ["x", "osfs", "a", "ftp", "a:", "\xe9"]
